@@ -2,6 +2,7 @@ package pdistinct
 
 import (
 	"math"
+	"sync/atomic"
 	"testing"
 
 	"pgregory.net/rapid"
@@ -81,6 +82,7 @@ func genDet(t *rapid.T) DetCase {
 			return rapid.IntRange(0, dom-1).Draw(t, "v")
 		})
 		c.Ops = rapid.SliceOfN(elem, 0, 300).Draw(t, "ops")
+		c.Reps = rapid.SampledFrom([]int{1, 8, 32}).Draw(t, "reps")
 		return c
 	}
 	// descriptor: d relative to the size, from 0 to 40*size
@@ -111,6 +113,9 @@ func genDet(t *rapid.T) DetCase {
 		d2 := rapid.IntRange(0, 3*c.Size).Draw(t, "d2")
 		c.Ops = append(c.Ops, Reset)
 		c.Ops = append(c.Ops, buildStream(d2, 2, "shuffle", vk.NewRNG(seed^0x5bd1e995))...)
+	}
+	if len(c.Ops) <= 4000 {
+		c.Reps = rapid.SampledFrom([]int{1, 4, 8}).Draw(t, "reps")
 	}
 	return c
 }
@@ -152,23 +157,33 @@ func TestC19Stat(t *testing.T) {
 	slot := h.Slot()
 	tl := vk.NewTally()
 	maxAbsT, checkpoints := 0.0, 0
+	// Every stream is evaluated; if several fail, the one that is off by the
+	// most standard errors is reported (its replay, which draws fresh entropy,
+	// then fails again most reliably).
+	var worst *StatCase
+	worstMsg, worstT := "", 0.0
 	for _, c := range statStreams(h, R) {
 		mids, ends := make([]float64, R), make([]float64, R)
 		slot.Enter(c)
-		var pmsg [1]string
+		var pmsg atomic.Value
 		vk.Parallel(h, R, func(worker, i int) {
 			if m := vk.Guard(func() string { mids[i], ends[i] = oneCounter(c); return "" }); m != "" {
-				pmsg[0] = m
+				pmsg.Store(m)
 			}
 		})
 		res, msg := evalStat(c, mids, ends)
 		slot.Leave()
-		if pmsg[0] != "" {
-			msg = pmsg[0]
+		if m, ok := pmsg.Load().(string); ok {
+			p := h.Fail(c, m)
+			t.Fatalf("VK-VIOLATION property=C19 leg=stat replay=%s\n%s", p, m)
 		}
 		if msg != "" {
-			p := h.Fail(c, msg)
-			t.Fatalf("VK-VIOLATION property=C19 leg=stat replay=%s\n%s", p, msg)
+			sig := math.Max(math.Abs(res.TEnd), math.Abs(res.TMid)) // +Inf for a mismatch in the exact regime
+			if worst == nil || sig > worstT {
+				cc := c
+				worst, worstMsg, worstT = &cc, msg, sig
+			}
+			continue
 		}
 		size, d := c.Size, res.D
 		repeats := len(c.Vals) > d
@@ -205,6 +220,10 @@ func TestC19Stat(t *testing.T) {
 		h.Count("counter_runs", int64(R))
 		h.Note("size %d, %d values, %d distinct (mid %d): mean %.3f (t=%+.2f), mid mean %.3f (t=%+.2f), s/d=%.3f",
 			size, len(c.Vals), d, res.DMid, res.End.Mean, res.TEnd, res.Mid.Mean, res.TMid, res.End.SD/math.Max(1, float64(d)))
+	}
+	if worst != nil {
+		p := h.Fail(*worst, worstMsg)
+		t.Fatalf("VK-VIOLATION property=C19 leg=stat replay=%s\n%s", p, worstMsg)
 	}
 	h.MergeTally(tl)
 	h.Note("R = %d counters per stream; largest |t| over %d checkpoints: %.2f (band +8 s.e.; -8 s.e. for size >= 8, -12 for sizes 4..7, -16 for sizes 2..3)", R, checkpoints, maxAbsT)
